@@ -129,6 +129,25 @@ def empty_preference(d, rules):
     return walk(d)
 
 
+def choice_nodes(root):
+    """every ambiguous symbol node of the real SPPF: its families in iteration order as [is_empty, priority, rule.order] and the index of the one
+    `sorted(children, key=sort_key)[0]` is (what ambiguity='resolve' takes)"""
+    from lark.parsers.earley_forest import SymbolNode
+    out, seen, stack = [], set(), [root]
+    while stack and len(out) < 40:
+        n = stack.pop()
+        if not isinstance(n, SymbolNode) or id(n) in seen:
+            continue
+        seen.add(id(n))
+        fams = list(n._children)
+        for p in fams:
+            stack.extend(c for c in (p.left, p.right) if c is not None)
+        if len(fams) > 1 and all(isinstance(p.priority, int) for p in fams):
+            first = n.children[0]
+            out.append({'fams': [[bool(p.is_empty), p.priority, p.rule.order] for p in fams], 'chosen': [i for i, p in enumerate(fams) if p is first][0]})
+    return out
+
+
 def has_empty_rule(rules):
     return any(len(r.expansion) == 0 for r in rules)
 
@@ -409,6 +428,7 @@ def _forest_case(args):
                                 ForestSumVisitor().visit(root)
                                 run['root_priority'] = root.priority if root.priority != float('-inf') else None
                                 run['ao'] = sppf_to_ao(root, lexer != 'basic')
+                                run['choices'] = choice_nodes(root)
                         except UnexpectedInput:
                             run['resolve'][str(mode)] = {'reject': True}
                 except Timeout:
